@@ -7,8 +7,10 @@
    schedule of passes, device bytes and clock steps is total (never Abort / Hang: the do..while fuel 8 suffices for
    scripts of at most 8 nesting levels) and its observations are a derivation of the independent trace
    semantics Spec/ScriptSem.v of the script (complete, failed, or cut = prefix); C08_fresh_start - the same for
-   every reachable action after _rewind_action (F9 repaired); C08_delays, C08_program_order - what the
-   semantics says about every trace.  Proofs in Proofs/ScriptRefine.v, ScriptSim.v, ScriptRun.v. *)
+   every reachable action after _rewind_action (F9 repaired), C08_fresh_start_same - the rewound action behaves
+   exactly like a freshly created one; C08_delays, C08_program_order - what the semantics says about every trace;
+   C08_device_round - the round of Device.pa_step is the step of the run.  Proofs in Proofs/ScriptRefine.v,
+   ScriptSim.v, ScriptRun.v, ScriptRewind.v, ScriptDevice.v. *)
 From Coq Require Import List NArith ZArith Bool.
 From PM Require Import Base.Bytes Base.Outcome Gen.GenConsts Model.ScriptAst Model.Enqueue Model.Script Model.Device Spec.ScriptSem
   Proofs.ScriptProofs Proofs.ScriptRefine Proofs.ScriptSim Proofs.ScriptRun Proofs.ScriptDevice.
@@ -162,6 +164,25 @@ Theorem C08_fresh_start : forall (rmatch : text -> text -> option pmatch) (compr
     sent_of tr2 = raw_sent raw2.
 Proof. exact rewound_refines. Qed.
 
+(* ... and, literally: on EVERY schedule the rewound action behaves exactly like a freshly created action for the same
+   request (same script, command, plugs, client, callbacks, argument table): same status, same device state, same
+   argument store, same observations, same raw events.  (The two actions differ in the time stamp, the stale
+   delay_start and the cached plug-list copy of a ranged foreach; Proofs/ScriptRewind.v shows that no handler can
+   tell.) *)
+Theorem C08_fresh_start_same : forall (rmatch : text -> text -> option pmatch) (compress : list text -> text) (sc : bool)
+    script ps com client hascb tele hasdiag args d0 store0 ins1 d a store tr raw,
+  bwf script -> (block_levels script <= 8)%nat -> (is_ranged_com com = true -> ps <> None) ->
+  (args <> None -> hasdiag = true) ->
+  run rmatch compress sc ins1 d0 (create_action script com ps client hascb tele hasdiag args) store0 [] []
+    = Ok (Running, d, a, store, tr, raw) ->
+  forall d1 ins2 st d' a2 store' tr2 raw2, sd_plugs d1 = sd_plugs d0 ->
+  run rmatch compress sc ins2 d1 (rewind_action a) store [] [] = Ok (st, d', a2, store', tr2, raw2) ->
+  exists a2',
+    run rmatch compress sc ins2 d1
+        (create_action script (a_com a) ps (a_client a) (a_hascb a) (a_tele a) (a_hasdiag a) (a_args a)) store [] []
+      = Ok (st, d', a2', store', tr2, raw2).
+Proof. exact rewound_same. Qed.
+
 (* what the semantics says about EVERY trace (complete, failed or cut): each delay lasted at least its time *)
 Theorem C08_delays : forall (rmatch : text -> text -> option pmatch) (compress : list text -> text) sc ranged devplugs
     script ps s tr s' st,
@@ -282,6 +303,18 @@ Example C08_device_round_example :
   | _ => False
   end.
 Proof. vm_compute. repeat split. Qed.
+(* ... which is what the freshly created action does on the same schedule (C08_refines_example) *)
+Example C08_fresh_start_same_example :
+  match run toy_match toy_compress false [mkInput 10 [] 0] toy_dev toy_action [] [] [],
+        run toy_match toy_compress false toy_ins toy_dev toy_action [] [] [] with
+  | Ok (Running, _, a, store, _, _), Ok (st1, d1, _, store1, tr1, raw1) =>
+      match run toy_match toy_compress false toy_ins toy_dev (rewind_action a) store [] [] with
+      | Ok (st2, d2, _, store2, tr2, raw2) => st2 = st1 /\ d2 = d1 /\ store2 = store1 /\ tr2 = tr1 /\ raw2 = raw1
+      | _ => False
+      end
+  | _, _ => False
+  end.
+Proof. vm_compute. repeat split. Qed.
 
 Print Assumptions C08_refines. Print Assumptions C08_fresh_start. Print Assumptions C08_delays. Print Assumptions C08_program_order.
-Print Assumptions C08_device_round.
+Print Assumptions C08_device_round. Print Assumptions C08_fresh_start_same.
